@@ -39,7 +39,8 @@ DOCUMENTED = {
 
 
 def readme_extensions():
-    txt = (Path("/repo") / "README.md").read_text(encoding="utf-8")
+    import common
+    txt = (common.REPO / "README.md").read_text(encoding="utf-8")
     m = re.search(r"## Supported Formats(.*?)\n## ", txt, re.S)
     sect = m.group(1) if m else txt
     exts = []
@@ -110,23 +111,45 @@ def path_corpus(ctx, docs):
             cv.append("File." + v)
     paths += cv
     # random stems over a hostile alphabet
-    alpha = list("ab.Z /\\-_~: \t") + ["\u0130", "\u00e9", ".tar", ".gz", "..", "/.", "./"]
+    alpha = list("ab.Z /\\-_~: \t{}[]%?#@\n") + ["\u0130", "\u00e9", ".tar", ".gz", "..", "/.", "./", "//", "\u2100", "\r\n"]
     for _ in range(ctx.n(1500, 60000)):
         k = rng.randint(0, 6)
         st = "".join(rng.choice(alpha) for _ in range(k))
         e = rng.choice(exts)
         sep = rng.choice([".", ".", ".", "", "..", "/."])
-        tail = rng.choice(["", "", "", "/", ".", " ", ".bak"])
+        tail = rng.choice(["", "", "", "/", ".", " ", ".bak", "\n", "\r\n", "?x=1", "}"])
         paths.append(st + sep + e + tail)
+    # hostile spellings (round 3): trailing white space / line ends after the extension, format-template and
+    # URL/UNC-like names, characters that NFKC-normalise to URL delimiters.  Placed first so that the quick
+    # tier never samples them away.
+    router_exts = sorted(set(k.lstrip(".") for k in router._SUPPORTED_EXTENSIONS) | set(router._EXTRACTOR_REGISTRY)
+                         | set(router._EXTENSION_ALIASES) | {c.lstrip(".") for c in router._COMPOUND_EXTENSIONS}
+                         | {"unknown", "bak", ""})
+    tails = ["\n", "\r\n", "\r", "\n\n", "\t", "\x0b", "\x0c", "\x1c", "\x85", "\u2028", "\u00a0", "\x00", " \n",
+             "?web=1", "#frag", "%20", ";v=1", "\\", ":", "::$DATA", "~"]
+    hstems = ["{3F2504E0-4F89-11D3-9A0C-0305E82C3301}", "report {final}", "x{}", "notes{0}", "budget}", "~$draft{",
+              "{extensions}", "{0!r:>{1}}", "%s", "%(name)s", "$HOME", "${x}", "//[backup]/q3", "//[x", "//srv\u2100/q3",
+              "http://[::1]/a", "https://h/a%2Fb", "scheme://[x]/a", "//h:99999/a", "http://u:p@h/a", "\\\\srv\\share\\a",
+              "a\nb", "a\x00b", "\uff0e", "a\uff0fb", "\u202e", "a" * 300, "[1]", "(copy)", "a;b", "a&b", "*", "?", "<x>", "|"]
+    hostile = []
+    for e in router_exts:
+        for tl in tails:
+            hostile.append("doc." + e + tl if e else "doc" + tl)
+    for st in hstems:
+        for e in (rng.sample(router_exts, 6) + ["docx", "pdf", "tar.gz", "unknown", ""]):
+            hostile.append(st + ("." + e if e else ""))
+            hostile.append(st + ("." + e if e else "") + rng.choice(tails))
+    paths = hostile + paths
+    ctx.extra["hostile_paths"] = len(hostile)
     # dedupe, keep order
     seen, out = set(), []
     for p in paths:
         if p not in seen:
             seen.add(p)
             out.append(p)
-    if ctx.tier == "quick" and len(out) > 9000:
-        head = out[:6000]
-        rest = out[6000:]
+    if ctx.tier == "quick" and len(out) > 11000:
+        head = out[:8000]
+        rest = out[8000:]
         rng.shuffle(rest)
         out = head + rest[:3000]
     return out
